@@ -20,13 +20,17 @@ current core.py on every run, `e.X` = cached entry of key `X`):
      product rule and `∂_tγ_ij = −2αK_ij + L_βγ_ij`, then the Spec right-hand
      sides of `dtgammaup3`, `dtphi_bssnok`, `dtgammadown3_bssnok` ARE the
      t-derivatives of γ⁻¹, (1/12) ln det γ, ψ⁻⁴γ_ij.
+ T4  (Layer B)  with, in addition, the ADM evolution equation for `∂_tK_ij` and
+     the Hamiltonian constraint as hypotheses, `dtKtrace = ∂_t(γ^ij K_ij)`;
+     `Ã_ijÃ^ij = K_ijK^ij − K²/3`.
 
 What NO theorem here covers (continuum theory, trusted; watched by the sympy
 oracle of tools/props/C06.py on exact solutions at two resolutions):
  * "the constraints converge to zero on every exact solution" = contracted
    Gauss–Codazzi identities + Einstein's equations;
- * the derivation of the BSSNOK right-hand sides of ∂_tK, ∂_tÃ_ij, ∂_tΓ̃^i from
-   the ADM evolution equation for K_ij and the constraints;
+ * the derivation of the BSSNOK right-hand sides of ∂_tÃ_ij and ∂_tΓ̃^i from the
+   ADM evolution equation for K_ij and the constraints (for these two keys only
+   the term-by-term match T1 is proven), and the ADM equations themselves;
  * convergence order of the composed finite-difference expressions.
 -/
 import AurelVerif.Props.C09
@@ -373,6 +377,59 @@ theorem dtgammadown3_bssnok_is_dt (e : Env K) (Dt : K → K) (hDt : C06Deriv.Der
   rw [dtgammadown3_bssnok_is_dt_conformal e (fun a b => Dt (e.gammadown3 a b)) (Dt e.phi_bssnok) p h2 h3 hgt hAt hA hKt
     (fun s a b => by rw [hgt, (hD s).mul, hps s]; ring) hφ hkin i j, hgt, hDt.mul, hpt]
   ring
+
+/-! ### T4 `dtKtrace` is `∂_t(γ^ij K_ij)` — needs the ADM evolution equation AND the Hamiltonian constraint -/
+
+/-- **`Ã_ijÃ^ij = K_ijK^ij − K²/3`**: the conformal weights cancel and the trace part splits off
+(entries produced by the code's own formulas, ψ⁴ ≠ 0, `γ^ij γ_jk = δ`). -/
+theorem A2_bssnok_closed (e : Env K) (h3 : (3 : K) ≠ 0) (hψ : e.psi_bssnok ^ 4 ≠ 0)
+    (hAb : e.Adown3_bssnok = Adown3_bssnok e) (hAub : e.Aup3_bssnok = Aup3_bssnok e)
+    (hA : e.Adown3 = Adown3 e) (hAu : e.Aup3 = Aup3 e) (hKup : e.Kup3 = Kup3 e) (hKt : e.Ktrace = Ktrace e)
+    (hsymG : Sym e.gammadown3) (hsymU : Sym e.gammaup3)
+    (hUG : ∀ i k : Fin 3, ∑ j, e.gammaup3 i j * e.gammadown3 j k = delta i k) :
+    A2_bssnok e = (∑ i, ∑ j, e.Kdown3 i j * e.Kup3 i j) - (1 / 3) * e.Ktrace ^ 2 := by
+  rw [A2_bssnok_spec]
+  have hw : ∀ i j, e.Adown3_bssnok i j * e.Aup3_bssnok i j = e.Adown3 i j * e.Aup3 i j := by
+    intro i j
+    have hψ0 : e.psi_bssnok ≠ 0 := fun h => hψ (by rw [h]; norm_num)
+    rw [hAb, hAub, (bssnok_weights e i j).2.2.1, (bssnok_weights e i j).2.2.2]
+    field_simp
+  have hT : e.Ktrace = ∑ i, ∑ j, e.gammaup3 i j * e.Kdown3 i j := by rw [hKt]; exact Ktrace_spec e
+  have hAs : ∀ a b, e.Adown3 a b = e.Kdown3 a b - (1 / 3) * e.gammadown3 a b * e.Ktrace := by
+    intro a b; rw [hA, Adown3_spec, ← hT]
+  have hAu' : ∀ i j, e.Aup3 i j = ∑ a, ∑ b, e.gammaup3 i a * e.gammaup3 j b * e.Adown3 a b := by
+    intro i j; rw [hAu]; exact Aup3_spec e i j
+  have hKu' : ∀ a b, e.Kup3 a b = ∑ i, ∑ j, e.gammaup3 i a * e.gammaup3 j b * e.Kdown3 i j := by
+    intro a b; rw [hKup]; exact Kup3_spec e a b
+  simp only [hw, hAu', hAs, hKu']
+  exact C06Deriv.A2_closed e.gammadown3 e.gammaup3 e.Kdown3 e.Ktrace h3 hsymG hsymU hUG hT
+
+/-- **`dtKtrace` (matter branch) is `∂_t(γ^ij K_ij) = (∂_tγ^ij)K_ij + γ^ij ∂_tK_ij`** when
+`∂_tγ^ij` is the code's `dtgammaup3` (T3), `∂_tK_ij` obeys the ADM evolution equation (B&S 2.135 with Λ),
+`∂_sK` obeys the product rule, and **the Hamiltonian constraint holds** (`Hamiltonian = 0`): the BSSNOK form of
+`∂_tK` has used the constraint to eliminate the Ricci scalar. -/
+theorem dtKtrace_is_dt_trace (e : Env K) (dtU dtKd Ric : Fin 3 → Fin 3 → K) (h2 : (2 : K) ≠ 0) (hκ : e.kappa ≠ 0)
+    (hsymU : Sym e.gammaup3) (hsymK : Sym e.Kdown3)
+    (hUG : ∀ i k : Fin 3, ∑ j, e.gammaup3 i j * e.gammadown3 j k = delta i k)
+    (hKup : e.Kup3 = Kup3 e) (hKt : e.Ktrace = Ktrace e)
+    (hS : e.Stresstrace_n = ∑ i, ∑ j, e.gammaup3 i j * e.Stressdown3_n i j)
+    (hR : e.s_RicciS = ∑ i, ∑ j, e.gammaup3 i j * Ric i j)
+    (hA2 : e.A2_bssnok = (∑ i, ∑ j, e.Kdown3 i j * e.Kup3 i j) - (1 / 3) * e.Ktrace ^ 2)
+    (hdK : ∀ s, e.D s e.Ktrace
+        = ∑ i, ∑ j, (e.D s (e.gammaup3 i j) * e.Kdown3 i j + e.gammaup3 i j * e.D s (e.Kdown3 i j)))
+    (hdtU : ∀ i j, dtU i j = dtgammaup3 e i j)
+    (hadm : ∀ i j, dtKd i j = ADM.dtKdown e.betaup3 (dβ e) (pd2 e.D e.Kdown3) e.Kdown3 e.gammadown3 e.gammaup3
+        e.DDalpha Ric e.Stressdown3_n e.alpha e.Ktrace e.kappa e.rho_n e.Stresstrace_n e.Lambda i j)
+    (hham : Hamiltonian__dflt_matter e = 0) :
+    dtKtrace__dflt_matter e = ∑ i, ∑ j, (dtU i j * e.Kdown3 i j + e.gammaup3 i j * dtKd i j) := by
+  rw [dtKtrace_matter_spec e hκ h2]
+  have hKu : ∀ a b, e.Kup3 a b = ∑ i, ∑ j, e.gammaup3 i a * e.gammaup3 j b * e.Kdown3 i j := by
+    intro a b; rw [hKup]; exact Kup3_spec e a b
+  have hT : e.Ktrace = ∑ i, ∑ j, e.gammaup3 i j * e.Kdown3 i j := by rw [hKt]; exact Ktrace_spec e
+  exact (C06Deriv.dt_trace_K e.gammadown3 e.gammaup3 e.Kdown3 e.Kup3 dtU dtKd e.DDalpha Ric e.Stressdown3_n
+    (pd2 e.D e.gammaup3) (pd2 e.D e.Kdown3) e.betaup3 (dβ e) (grad e e.Ktrace) e.alpha e.Ktrace e.A2_bssnok e.kappa
+    e.rho_n e.Stresstrace_n e.Lambda e.s_RicciS h2 hsymU hsymK hUG hKu hT hS hR hA2 (fun s => hdK s)
+    (fun i j => by rw [hdtU, dtgammaup3_spec]) hadm ((Hamiltonian_spec e).1 ▸ hham)).symm
 
 /-! ## Non-vacuity -/
 
